@@ -137,6 +137,12 @@ theorem removePrep_inv {cfg : Cfg} {s : State} (h : SubInv cfg s) (u : Nat) (m :
       obtain ⟨m0, hm0, ht⟩ := h.sub t u hu
       rw [hm] at hm0; cases hm0; exact hnot ht
 
+theorem logAt_inv {cfg : Cfg} {fwd : Fwd} (hi : InvOK cfg fwd) (lvl : Nat) {s : State} (h : SubInv cfg s) :
+    SubInv cfg (logAt cfg fwd lvl s) := by
+  unfold logAt; split
+  · exact hi _ _ h
+  · exact h
+
 theorem removeModule_inv {cfg : Cfg} {B} (hB : Tag cfg B) {fwd : Fwd} (hf : FwdOK B fwd) (hi : InvOK cfg fwd) {s : State}
     (h : SubInv cfg s) (u : Nat) : SubInv cfg (removeModule cfg fwd s u) := by
   unfold removeModule
@@ -145,10 +151,12 @@ theorem removeModule_inv {cfg : Cfg} {B} (hB : Tag cfg B) {fwd : Fwd} (hf : FwdO
   · rename_i m hm
     dsimp only
     obtain ⟨h3, hout⟩ := removePrep_inv h u m hm
-    have h4 := hi (removePrep s u m) (closedFrame cfg { m with connected := false }) h3
-    have hp := (hf (removePrep s u m) (closedFrame cfg { m with connected := false })
+    have h3l := logAt_inv hi 10 h3
+    have hpl := (logAt_ok cfg hB hf 10 (removePrep s u m)).1
+    have h4 := hi (logAt cfg fwd 10 (removePrep s u m)) (closedFrame cfg { m with connected := false }) h3l
+    have hp := hpl.trans (hf (logAt cfg fwd 10 (removePrep s u m)) (closedFrame cfg { m with connected := false })
       (by simp [closedFrame, mgrFrame, hB.1])).1
-    generalize fwd (removePrep s u m) (closedFrame cfg { m with connected := false }) = s4 at h4 hp
+    generalize fwd (logAt cfg fwd 10 (removePrep s u m)) (closedFrame cfg { m with connected := false }) = s4 at h4 hp
     refine ⟨fun t v hv => ?_, h4.nodup, fun v m' hm' ha => ?_⟩
     · have hvu : v ≠ u := by intro e; subst e; exact hout t (hp.idx t v hv)
       obtain ⟨m0, hm0, ht⟩ := h4.sub t v hv
@@ -163,12 +171,6 @@ theorem removeModule_inv {cfg : Cfg} {B} (hB : Tag cfg B) {fwd : Fwd} (hf : FwdO
       · have hm'' : (s4.mods.filter (·.uid != u)).find? (·.uid == v) = some m' := hm'
         rw [find_filter_ne _ _ _ hvu] at hm''
         exact h4.excl v m' hm'' ha
-
-theorem logAt_inv {cfg : Cfg} {fwd : Fwd} (hi : InvOK cfg fwd) (lvl : Nat) {s : State} (h : SubInv cfg s) :
-    SubInv cfg (logAt cfg fwd lvl s) := by
-  unfold logAt; split
-  · exact hi _ _ h
-  · exact h
 
 theorem failedMsg_inv {cfg : Cfg} {fwd : Fwd} (hi : InvOK cfg fwd) {s : State} (h : SubInv cfg s) (d : Int) (f : Frame) :
     SubInv cfg (failedMsg cfg fwd s d f) := by
@@ -315,10 +317,10 @@ theorem subInv_set {cfg : Cfg} {s : State} (h : SubInv cfg s) (u : Nat) (m : Mod
         simp only [this, Bool.false_eq_true, if_false] at hm'; subst hm'
         exact h.excl v m0 h0 ha
 
-theorem addSub_inv {cfg : Cfg} {s : State} (h : SubInv cfg s) (u : Nat) (t : Int) (m : Module)
-    (hm : s.find u = some m) : SubInv cfg (addSub cfg s u t) := by
+theorem addSubCore_inv {cfg : Cfg} {s : State} (h : SubInv cfg s) (u : Nat) (t : Int) (m : Module)
+    (hm : s.find u = some m) : SubInv cfg (addSubCore cfg s u t) := by
   have hlm : lookupMod s u = m := by unfold lookupMod; rw [hm]; rfl
-  unfold addSub
+  unfold addSubCore
   simp only [hlm]
   have hown : ∀ t', u ∈ idxGet s.idx t' → t' ∈ m.subs := by
     intro t' hu; obtain ⟨m0, hm0, ht⟩ := h.sub t' u hu; rw [hm] at hm0; cases hm0; exact ht
@@ -382,10 +384,16 @@ theorem addSub_inv {cfg : Cfg} {s : State} (h : SubInv cfg s) (u : Nat) (t : Int
           · exact hnsa h1
           · simp at h1; exact hnall h1.symm
 
-theorem removeSub_inv {cfg : Cfg} {s : State} (h : SubInv cfg s) (u : Nat) (t : Int) (m : Module)
-    (hm : s.find u = some m) : SubInv cfg (removeSub cfg s u t) := by
+theorem addSub_inv {cfg : Cfg} {s : State} (h : SubInv cfg s) (u : Nat) (t : Int) (m : Module)
+    (hm : s.find u = some m) : SubInv cfg (addSub cfg s u t) := by
+  unfold addSub; split
+  · exact logAt_inv (fwdTop_inv cfg) 10 (addSubCore_inv h u t m hm)
+  · exact addSubCore_inv h u t m hm
+
+theorem removeSubCore_inv {cfg : Cfg} {s : State} (h : SubInv cfg s) (u : Nat) (t : Int) (m : Module)
+    (hm : s.find u = some m) : SubInv cfg (removeSubCore cfg s u t) := by
   have hlm : lookupMod s u = m := by unfold lookupMod; rw [hm]; rfl
-  unfold removeSub
+  unfold removeSubCore
   simp only [hlm]
   have hown : ∀ t', u ∈ idxGet s.idx t' → t' ∈ m.subs := by
     intro t' hu; obtain ⟨m0, hm0, ht⟩ := h.sub t' u hu; rw [hm] at hm0; cases hm0; exact ht
@@ -423,6 +431,12 @@ theorem removeSub_inv {cfg : Cfg} {s : State} (h : SubInv cfg s) (u : Nat) (t : 
         · exact (h.nodup t').filter _
         · exact h.nodup t'
       · exact absurd (List.mem_filter.mp ha).1 hnsa
+
+theorem removeSub_inv {cfg : Cfg} {s : State} (h : SubInv cfg s) (u : Nat) (t : Int) (m : Module)
+    (hm : s.find u = some m) : SubInv cfg (removeSub cfg s u t) := by
+  unfold removeSub; split
+  · exact logAt_inv (fwdTop_inv cfg) 10 (removeSubCore_inv h u t m hm)
+  · exact removeSubCore_inv h u t m hm
 
 /-! ## the snapshot has no repetition -/
 
@@ -473,6 +487,18 @@ theorem setAll_keeps (cfg : Cfg) (buf : List Nat) (h : Hdr) (nm : List Nat) (x :
     (setAll cfg buf h nm x).uid = x.uid ∧ (setAll cfg buf h nm x).subs = x.subs := by
   unfold setAll; exact setReq_keeps cfg buf h x
 
+theorem clashLoop_inv (cfg : Cfg) (me : Module) : ∀ (os : List Module) {s : State}, SubInv cfg s →
+    SubInv cfg (clashLoop cfg me os s).1
+  | [], _, h => h
+  | o :: rest, s, h => by
+    unfold clashLoop
+    split
+    · exact h
+    · apply clashLoop_inv cfg me rest
+      split
+      · exact h
+      · exact logAt_inv (fwdTop_inv cfg) 10 h
+
 theorem connectModule_inv {cfg : Cfg} {s : State} (h : SubInv cfg s) (u : Nat) (hd : Hdr) :
     SubInv cfg (connectModule cfg s u hd).1 := by
   unfold connectModule
@@ -488,9 +514,15 @@ theorem connectModule_inv {cfg : Cfg} {s : State} (h : SubInv cfg s) (u : Nat) (
       split
       · split
         · exact removeTop_inv (logAt_inv (fwdTop_inv cfg) 40 h1) u
-        · split
-          · exact removeTop_inv (logAt_inv (fwdTop_inv cfg) 40 h1) u
-          · exact subInv_misc (subInv_upd h1 u (fun m => { m with connected := true }) (fun _ => rfl) (fun _ => rfl)) _ rfl rfl
+        · have hl := clashLoop_inv cfg (setAll cfg s.buf hd nm (lookupMod s u))
+            ((s.upd u (setAll cfg s.buf hd nm)).mods.filter (·.uid != u)) h1
+          generalize clashLoop cfg (setAll cfg s.buf hd nm (lookupMod s u))
+            ((s.upd u (setAll cfg s.buf hd nm)).mods.filter (·.uid != u)) (s.upd u (setAll cfg s.buf hd nm)) = r at hl
+          obtain ⟨s2, cl⟩ := r
+          dsimp only at hl ⊢
+          split
+          · exact removeTop_inv (logAt_inv (fwdTop_inv cfg) 40 hl) u
+          · exact subInv_misc (subInv_upd hl u (fun m => { m with connected := true }) (fun _ => rfl) (fun _ => rfl)) _ rfl rfl
       · split
         · exact removeTop_inv (logAt_inv (fwdTop_inv cfg) 40 h1) u
         · rename_i id off _
@@ -499,10 +531,13 @@ theorem connectModule_inv {cfg : Cfg} {s : State} (h : SubInv cfg s) (u : Nat) (
 
 theorem fwdTop_inv' {cfg : Cfg} {s : State} (h : SubInv cfg s) (g : Frame) : SubInv cfg (fwdTop cfg s g) := fwdTop_inv cfg s g h
 
+theorem infoOf_inv {cfg : Cfg} {s : State} (h : SubInv cfg s) (m : Module) : SubInv cfg (infoOf cfg s m) := by
+  unfold infoOf; exact fwdTop_inv' (logAt_inv (fwdTop_inv cfg) 10 h) _
+
 theorem sendInfo_inv {cfg : Cfg} {s : State} (h : SubInv cfg s) (u : Nat) : SubInv cfg (sendInfo cfg s u) := by
   unfold sendInfo; split
   · exact h
-  · exact fwdTop_inv' h _
+  · exact infoOf_inv h _
 
 theorem processMessage_inv {cfg : Cfg} {s : State} (h : SubInv cfg s) (u : Nat) (m : Module) (hm : s.find u = some m)
     (hd : Hdr) : SubInv cfg (processMessage cfg s u hd) := by
@@ -514,7 +549,7 @@ theorem processMessage_inv {cfg : Cfg} {s : State} (h : SubInv cfg s) (u : Nat) 
     obtain ⟨s1, ok⟩ := r
     simp only at hc ⊢
     split
-    · exact logAt_inv (fwdTop_inv cfg) 20 (fwdTop_inv' (sendAck_inv hc u) _)
+    · exact logAt_inv (fwdTop_inv cfg) 20 (infoOf_inv (sendAck_inv hc u) _)
     · exact hc
   · split
     · exact logAt_inv (fwdTop_inv cfg) 20 (removeTop_inv h u)
@@ -526,11 +561,11 @@ theorem processMessage_inv {cfg : Cfg} {s : State} (h : SubInv cfg s) (u : Nat) 
           · split
             · exact removeTop_inv (logAt_inv (fwdTop_inv cfg) 40 h) u
             · rename_i nm _
-              exact sendInfo_inv (logAt_inv (fwdTop_inv cfg) 20
-                (subInv_upd h u (fun m => { m with name := nm }) (fun _ => rfl) (fun _ => rfl))) u
+              exact infoOf_inv (logAt_inv (fwdTop_inv cfg) 20
+                (subInv_upd h u (fun m => { m with name := nm }) (fun _ => rfl) (fun _ => rfl))) _
           · split
             · exact sendInfo_inv (subInv_upd h u (fun m => { m with pid := bufI32 s.buf 0 }) (fun _ => rfl) (fun _ => rfl)) u
-            · exact fwdTop_inv' h _
+            · exact fwdTop_inv' (logAt_inv (fwdTop_inv cfg) 10 h) _
 
 theorem subInv_setBuf {cfg : Cfg} {s : State} (h : SubInv cfg s) (b : List Nat) : SubInv cfg { s with buf := b } :=
   subInv_of_same h rfl (fun _ => rfl)
@@ -569,7 +604,7 @@ theorem foldl_fwd_inv (cfg : Cfg) : ∀ (fs : List Frame) {s : State}, SubInv cf
 
 theorem infoAll_inv (cfg : Cfg) : ∀ (ms : List Module) {s : State}, SubInv cfg s → SubInv cfg (infoAll cfg ms s)
   | [], _, h => h
-  | m :: rest, _, h => by unfold infoAll; exact infoAll_inv cfg rest (fwdTop_inv' h _)
+  | m :: rest, _, h => by unfold infoAll; exact infoAll_inv cfg rest (infoOf_inv h _)
 
 theorem acceptStep_inv {cfg : Cfg} {s : State} (h : SubInv cfg s) : SubInv cfg (acceptStep cfg s) := by
   unfold acceptStep
@@ -616,16 +651,20 @@ theorem sendTraffic_inv {cfg : Cfg} {s : State} (h : SubInv cfg s) : SubInv cfg 
   unfold sendTraffic
   dsimp only
   have h1 : SubInv cfg ({ s with inTraffic := true } : State) := subInv_of_same h rfl (fun _ => rfl)
-  have h2 := foldl_fwd_inv cfg (trafficFrames cfg s.trafficSeq s.traffic) h1
+  have h1' := logAt_inv (fwdTop_inv cfg) 10 h1
+  generalize logAt cfg (fwdTop cfg) 10 ({ s with inTraffic := true } : State) = s1 at h1'
+  have h2 := foldl_fwd_inv cfg (trafficFrames cfg s1.trafficSeq s1.traffic) h1'
   exact subInv_of_same h2 rfl (fun _ => rfl)
 
 theorem sendActive_inv {cfg : Cfg} {s : State} (h : SubInv cfg s) : SubInv cfg (sendActive cfg s) := by
   unfold sendActive
   dsimp only
-  have h1 := infoAll_inv cfg s.mods h
+  have h0 := logAt_inv (fwdTop_inv cfg) 10 h
+  generalize logAt cfg (fwdTop cfg) 10 s = s0 at h0
+  have h1 := infoAll_inv cfg s0.mods h0
   have h2 := fwdTop_inv' h1 (mgrFrame cfg.mtActive 0 cfg.szActive
-    (Body.active (((infoAll cfg s.mods s).mods.length : Int) - 1) (trimZeros ((s.mods.take cfg.maxActive).map (·.modId)))
-      (trimZeros ((s.mods.take cfg.maxActive).map (·.pid)))))
+    (Body.active (((infoAll cfg s0.mods s0).mods.length : Int) - 1) (trimZeros ((s0.mods.take cfg.maxActive).map (·.modId)))
+      (trimZeros ((s0.mods.take cfg.maxActive).map (·.pid)))))
   exact subInv_of_same h2 rfl (fun _ => rfl)
 
 theorem ticks_inv {cfg : Cfg} {s : State} (h : SubInv cfg s) : SubInv cfg (ticks cfg s) := by
